@@ -117,7 +117,9 @@ macro_rules! cmp_int {
             let a: $LT = kani::any();
             let n: $I = kani::any();
             let fa = any_frac8();
-            let o = (a as i128).cmp(&((n as i128) << fa));
+            let n128 = n as i128;
+            let o = if n128 > (1i128 << 100) { Ordering::Less } else if n128 < -(1i128 << 100) { Ordering::Greater }
+                    else { (a as i128).cmp(&(n128 << fa)) };
             with_frac8!(fa, FA => {
                 check_ops!($L::<FA>::from_bits(a), n, o);
                 check_ops!(n, $L::<FA>::from_bits(a), o.reverse());
